@@ -1,9 +1,25 @@
 #!/bin/bash
-# tools/matrix.sh <outfile> : every seeded change x every quick check, on a scratch clone of /repo (never touches /repo)
+# tools/matrix.sh <outfile> [jobs] : every seeded change x every quick check, on scratch clones of /repo (never touches /repo).
+# Clones live under /tmp/mx and are removed at the end.
 out=${1:-/tmp/matrix.jsonl}
-: > "$out"
-export PRAATIO_REPO=/tmp/repo_copy VERIF_EVIDENCE_DIR=/tmp/matrix_ev VERIF_REPLAY_DIR=/tmp/matrix_replays
-for d in /verif/seeded/C*-m*; do
-  /verif/tools/eval_seeded.py "$d" --all >> "$out" 2>&1
+jobs=${2:-4}
+rm -rf /tmp/mx; mkdir -p /tmp/mx
+for k in $(seq 1 $jobs); do git clone -q /repo /tmp/mx/clone$k; done
+# a frozen copy of the machinery, so that the matrix is one consistent version even while /verif is being edited
+rsync -a --exclude .git --exclude .work --exclude replays /verif/ /tmp/mx/verif/
+ls -d /tmp/mx/verif/seeded/C*-m* > /tmp/mx/list
+for k in $(seq 1 $jobs); do
+  (
+    i=0
+    while read d; do
+      i=$((i+1))
+      if [ $((i % jobs)) -eq $((k % jobs)) ]; then
+        PRAATIO_REPO=/tmp/mx/clone$k VERIF_EVIDENCE_DIR=/tmp/mx/ev$k VERIF_REPLAY_DIR=/tmp/mx/replays$k /tmp/mx/verif/tools/eval_seeded.py "$d" --all 2>/dev/null | grep '^{' >> /tmp/mx/out$k
+      fi
+    done < /tmp/mx/list
+  ) &
 done
+wait
+cat /tmp/mx/out* > "$out"
 echo DONE >> "$out"
+rm -rf /tmp/mx
